@@ -269,6 +269,10 @@ def _fn_body(f, params, ndata, ind="    ") -> str:
     if op == "raise_if_ge":
         s = f"{ind}if isinstance({a}, int) and {a} >= {f[1]}:\n{ind}    raise _mkerr({f[2]})\n" if a else ""
         return s + _fn_body(f[3], params, ndata, ind)
+    if op == "short_if_ge":
+        # a multi-output function that returns too few values for some inputs (output unpacking fails after the body returned)
+        s = f"{ind}if isinstance({a}, int) and {a} >= {f[1]}:\n{ind}    return ({f[1]!r},)\n" if a else ""
+        return s + _fn_body(f[2], params, ndata, ind)
     if op == "glt":
         return f"{ind}return {a} < {f[1]}\n"
     if op == "gtable":
@@ -513,6 +517,24 @@ def _pre_use(G, env):
     env["_log"].clear()
 
 
+def make_flaky_cache(fail_on):
+    """An in-memory cache backend whose `fail_on`-th write raises (disk full, dropped connection, ...)."""
+    from hypergraph.cache import InMemoryCache
+
+    class FlakyCache(InMemoryCache):
+        def __init__(self):
+            super().__init__()
+            self.writes = 0
+
+        def set(self, key, value):
+            self.writes += 1
+            if fail_on is not None and self.writes == fail_on:
+                raise OSError(f"cache write #{self.writes} failed")
+            return super().set(key, value)
+
+    return FlakyCache()
+
+
 def run_real(g, run, rank=None):
     """run = {runner: 'sync'|'async', inputs: {...}, select: None|[...], max_iterations: int|None,
               error_handling: 'raise'|'continue', max_concurrency: None|int, on_missing}
@@ -521,6 +543,9 @@ def run_real(g, run, rank=None):
 
     rr = RealRun()
     kw = {}
+    rkw = {}
+    if run.get("cache"):
+        rkw["cache"] = make_flaky_cache(run["cache"].get("fail_on"))
     if run.get("select") is not None:
         kw["select"] = run["select"]
     if run.get("max_iterations") is not None:
@@ -544,9 +569,9 @@ def run_real(g, run, rank=None):
             if run.get("runner", "sync") == "sync":
                 G = build_graph(g, rr.env(), False)
                 if mp is not None:
-                    res = SyncRunner().map(G, dict(run["inputs"]), **kw)
+                    res = SyncRunner(**rkw).map(G, dict(run["inputs"]), **kw)
                 else:
-                    res = SyncRunner().run(G, dict(run["inputs"]), **kw)
+                    res = SyncRunner(**rkw).run(G, dict(run["inputs"]), **kw)
             else:
                 ts = Turnstile(rank or (lambda name: 0), hold=bool(run.get("hold")))
 
@@ -557,8 +582,8 @@ def run_real(g, run, rank=None):
                         if run.get("max_concurrency") is not None:
                             kw["max_concurrency"] = run["max_concurrency"]
                         if mp is not None:
-                            return await AsyncRunner().map(G, dict(run["inputs"]), **kw)
-                        return await AsyncRunner().run(G, dict(run["inputs"]), **kw)
+                            return await AsyncRunner(**rkw).map(G, dict(run["inputs"]), **kw)
+                        return await AsyncRunner(**rkw).run(G, dict(run["inputs"]), **kw)
                     finally:
                         ts.stop = True
                         await ts.task
